@@ -3,7 +3,6 @@ package main
 import (
 	"fmt"
 	"go/token"
-	"go/types"
 	"strings"
 
 	"golang.org/x/tools/go/ssa"
@@ -32,18 +31,6 @@ func (c *Check) serializerTree(rule string, depth int) []*ssa.Function {
 // was assigned.
 func (c *Check) internBeforeFreeze() {
 	p := c.P
-	isIntern := func(f *ssa.Function) bool {
-		if f == nil || fnPkgPath(f) != modPath+"/profile" || len(f.Params) != 2 || f.Signature.Results().Len() != 1 {
-			return false
-		}
-		mt, ok := f.Params[0].Type().Underlying().(*types.Map)
-		if !ok {
-			return false
-		}
-		kb, ok1 := mt.Key().Underlying().(*types.Basic)
-		sb, ok2 := f.Params[1].Type().Underlying().(*types.Basic)
-		return ok1 && ok2 && kb.Kind() == types.String && sb.Kind() == types.String
-	}
 	n := 0
 	for _, g := range c.serializerTree("C01-R10", 4) {
 		var freeze []ssa.Instruction
@@ -58,7 +45,7 @@ func (c *Check) internBeforeFreeze() {
 						}
 					}
 				case *ssa.Call:
-					if isIntern(x.Call.StaticCallee()) {
+					if internStringArg(x) != nil {
 						interns = append(interns, x)
 					}
 				}
